@@ -120,13 +120,17 @@ func RunScenario(t *testing.T, sc *Scenario, keepLog bool) (*Report, error) {
 		return tab, err
 	}
 	// aloneAt runs one op alone at a given fake instant.
-	aloneAt := func(r opRef, at int64) (*Outcome, error) {
+	aloneAt := func(r opRef, at int64, strip bool) (*Outcome, error) {
 		var out *Outcome
 		err := bubble(t, func() {
 			if d := time.Until(time.Unix(0, at)); d > 0 {
 				time.Sleep(d)
 			}
-			out = w.execOp(opOf(r), nil, true)
+			op := opOf(r)
+			if strip {
+				op.Fault = nil
+			}
+			out = w.execOp(op, nil, true)
 			releaseContexts([]*Outcome{out})
 		})
 		return out, err
@@ -150,7 +154,7 @@ func RunScenario(t *testing.T, sc *Scenario, keepLog bool) (*Report, error) {
 	case "C20":
 		var faulted []opRef
 		for _, r := range all {
-			if opOf(r).Fault != nil {
+			if opOf(r).Fault != nil && !opOf(r).ZoneSensitive() {
 				faulted = append(faulted, r)
 			}
 		}
@@ -231,11 +235,11 @@ func RunScenario(t *testing.T, sc *Scenario, keepLog bool) (*Report, error) {
 		}
 		for _, r := range zoned {
 			at := run.outcomes[r.task][r.op].StartNanos
-			a, err := aloneAt(r, at)
+			a, err := aloneAt(r, at, false)
 			if err != nil {
 				return nil, err
 			}
-			b, err := aloneAt(r, at)
+			b, err := aloneAt(r, at, false)
 			if err != nil {
 				return nil, err
 			}
@@ -265,6 +269,16 @@ func RunScenario(t *testing.T, sc *Scenario, keepLog bool) (*Report, error) {
 			op := opOf(r)
 			if op.Fault == nil {
 				continue
+			}
+			if op.ZoneSensitive() {
+				// The uncancelled reference of a clock-dependent
+				// operation is taken at the instant the operation
+				// started (the clock may have jumped before it).
+				ref, err := aloneAt(r, run.outcomes[r.task][r.op].StartNanos, true)
+				if err != nil {
+					return nil, err
+				}
+				refNoFault[r] = ref
 			}
 			judgeC20(add, r, describe(r), op, run.outcomes[r.task][r.op], refNoFault[r], len(sc.Paths[op.Path]))
 		}
